@@ -70,18 +70,21 @@ PROPS = {
     "C15": {
         "test_drivers": {"terwaycli.test": "./cmd/terway-cli/"},
         "lean": ["C15"],
-        "required": ["C15.c15_bandwidth_total", "C15.c15_bandwidth_unitless", "C15.c15_bandwidth_monotone", "C15.c15_units_ordered", "C15.c15_unit_table", "C15.c15_stored_filter_total", "C15.c15_stored_filter_range_loop_panics"],
+        "required": ["C15.c15_bandwidth_total", "C15.c15_bandwidth_unitless", "C15.c15_bandwidth_monotone", "C15.c15_units_ordered", "C15.c15_unit_table", "C15.c15_stored_filter_total", "C15.c15_stored_filter_range_loop_panics",
+                     "C15.c15_remote_zero_steps_times_out", "C15.c15_remote_answer_is_the_records", "C15.c15_remote_ok_only_if_ready"],
         "rule": "(1) parseBandwidth on the product of 32 numeric forms x 28 unit spellings x 3 paddings, plus random well-formed / near-valid / raw-byte / long-digit strings: "
                 "outcome (ok value | err | panic) compared with the Lean model; the value where float64 is exact (< 2^52 and equal to the big.Rat floor), the class elsewhere; "
                 "(2) monotone unit ladders B<K<M<G<T on the implementation; (3) monitor-only fuzz under recover of convertPod + pod-networks parsers, NUMA hints + RequestNetworkIndex, "
-                "MergeConfigAndUnmarshal/Populate/Validate, parseResourceID, BuildIPNet/ToIPSet/ToIPNetSet; (4) stored records (0-5 items, current and old format, attached / vanished interfaces) through the daemon's real start-up filter, outcome (kept items | panic) compared with Model/StoredRec.lean whose loop shape is regenerated from the source; (5) 500 / 8000 CNI configuration lists whose terway entry carries values of every JSON kind (null, booleans, numbers, strings, arrays, objects) in the fields terway-cli reads, through both steps of `terway-cli cni` (mergeConfigList, then storeRuntimeConfig; out-of-process test driver of cmd/terway-cli), compared with C20's chain model, monitor: panic. non-trivial = accepted bandwidth value; distinct = distinct op line.",
+                "MergeConfigAndUnmarshal/Populate/Validate, parseResourceID, BuildIPNet/ToIPSet/ToIPNetSet; (4) stored records (0-5 items, current and old format, attached / vanished interfaces) through the daemon's real start-up filter, outcome (kept items | panic) compared with Model/StoredRec.lean whose loop shape is regenerated from the source; (5) 500 / 8000 CNI configuration lists whose terway entry carries values of every JSON kind (null, booleans, numbers, strings, arrays, objects) in the fields terway-cli reads, through both steps of `terway-cli cni` (mergeConfigList, then storeRuntimeConfig; out-of-process test driver of cmd/terway-cli), compared with C20's chain model, monitor: panic; "
+                "(6) ConfigMap content that reaches a wait loop of the daemon: 60 / 600 ops rm.alloc - eni_conf's backoff_override for wait_podeni_status with 0-3 steps (0 = no Steps member the decoder recognises; parsed by the real MergeConfigAndUnmarshal, installed by backoff.OverrideBackoff) x a PodENI record in one of 7 states x daemon with / without a trunk interface, "
+                "through the real Remote.Allocate (the PodENI path of a CNI ADD) over a fake API server, in a child process because Allocate answers from a goroutine nobody can recover: the reply (ok / error code / time-out) is compared with the model's poll; an op the child dies in has the outcome panic (monitor C15/configmap/backoff-override/panic). non-trivial = accepted bandwidth value / record handed over; distinct = distinct op line.",
         "technique": "Lean 4 totality / acceptance / monotonicity theorems over a rune-level model of parseBandwidth (slice panics modelled) with a regenerated guard fact; differential correspondence; recover-based search on other parsers",
         "level_text": "Theorem: for every rune string and every letter/space/upper-case table, parseBandwidth does not panic (given the regenerated fact that the i<0 guard is present); digit strings are accepted as bytes; "
-                      "values are monotone in the unit multiplier and the multipliers are ordered. Theorem: no stored record makes the start-up filter (filterENINotFound) index out of range (given the regenerated fact that the loop re-reads the slice length; the range-loop variant is proved to panic on a two-item record). The other user-input parsers (JSON annotations, NUMA hints, ConfigMap merge, stored ids, IP sets) are only searched for panics, not proved: partial.",
+                      "values are monotone in the unit multiplier and the multipliers are ordered. Theorem: no stored record makes the start-up filter (filterENINotFound) index out of range (given the regenerated fact that the loop re-reads the slice length; the range-loop variant is proved to panic on a two-item record). The other user-input parsers (JSON annotations, NUMA hints, ConfigMap merge, stored ids, IP sets) are only searched for panics, not proved: partial Theorem: whatever number of steps eni_conf configures for the daemon's wait for a PodENI record, none included, the caller of Remote.Allocate gets an answer decided by the record alone (Model/Remote.lean: the record constant during the wait, the context's deadline longer than it; the other users of a configurable back-off are not driven with overrides).",
         "level_note": "Trusted: Lean kernel; Model/Bandwidth.lean hand-written, ParseFloat modelled on letter-free input only (sign, digits, one dot) with exact rational arithmetic - float64 rounding and the float->uint64 conversion above 2^63 are outside the model; "
                       "non-ASCII input is outside the driver's domain (the totality theorem itself is table-independent). Panics inside encoding/json, yaml, strconv, net are library behaviour, searched not proved.",
         "assumptions": ["strconv.ParseFloat accepts exactly sign/digits/one dot on letter-free input and never panics", "encoding/json, net.ParseCIDR, jsonpatch do not panic"],
-        "trusted_base": ["Model/Bandwidth.lean, Model/StoredRec.lean (hand-written; guard / loop-shape facts regenerated by factgen)", "hooks pkg/k8s, pkg/eni, pkg/controller/pod-eni, daemon zz_verif_export.go, cmd/terway-cli zz_verif_driver_test.go"],
+        "trusted_base": ["Model/Remote.lean (hand-written)", "Model/Bandwidth.lean, Model/StoredRec.lean (hand-written; guard / loop-shape facts regenerated by factgen)", "hooks pkg/k8s, pkg/eni, pkg/controller/pod-eni, daemon zz_verif_export.go, cmd/terway-cli zz_verif_driver_test.go"],
         "design_ref": "DESIGN.md §4 C15",
     },
     "C19": {
